@@ -65,8 +65,10 @@ fn dispatch(id: &str, tier: Tier) -> i32 {
     match id {
         "C01" => props::c01::run(tier),
         "C02" => props::c02::run(tier),
+        "C03" => props::c03::run(tier),
         "C05" => props::c05::run(tier),
         "C06" => props::c06::run(tier),
+        "C07" => props::c07::run(tier),
         "C08" => props::c08::run(tier),
         "C09" => props::c09::run(tier),
         "C11" => props::c11::run(tier),
